@@ -157,7 +157,7 @@ theorem inv_updLeaveNotify {s : St} (h : Inv s) : Inv (updLeaveNotify s) := by
 theorem leave_le_join : timeClusterLeaveNotification ≤ timeClusterJoinNotification := by decide
 
 /-- the two halves of `_update_standalone` together (the leave part needs to know what the join part did) -/
-theorem inv_updStandalone {s : St} (h : Inv s) (hs : s.state = .standalone) : Inv (updStandalone s) := by
+theorem inv_updStandalone {var : Variant} {s : St} (h : Inv s) (hs : s.state = .standalone) : Inv (updStandalone var s) := by
   obtain ⟨h1, h2, h3, h4, h5, h6, h7, h8, h9, h10, h11, h12, h13⟩ := h
   have hlj := leave_le_join
   unfold updStandalone updJoin
@@ -203,6 +203,9 @@ theorem inv_updStandalone {s : St} (h : Inv s) (hs : s.state = .standalone) : In
       split
       · apply inv_updLeaveNotify
         constructor <;> simp_all
+      split
+      · apply inv_updLeaveNotify
+        constructor <;> simp_all
       · exact inv_updLeaveNotify ⟨h1, h2, h3, h4, h5, h6, h7, h8, h9, h10, h11, h12, h13⟩
   · -- failed
     rename_i hj
@@ -210,6 +213,9 @@ theorem inv_updStandalone {s : St} (h : Inv s) (hs : s.state = .standalone) : In
     | none => simp_all
     | some t =>
       simp only []
+      split
+      · apply inv_updLeaveNotify
+        constructor <;> simp_all
       split
       · apply inv_updLeaveNotify
         constructor <;> simp_all
@@ -235,7 +241,7 @@ theorem inv_updPassive {s : St} (h : Inv s) (hs : s.state = .passive) : Inv (upd
     · exact inv_updLeaveNotify h
   · exact inv_updLeaveNotify h
 
-theorem inv_update {s : St} (h : Inv s) : Inv (update s) := by
+theorem inv_update {var : Variant} {s : St} (h : Inv s) : Inv (update var s) := by
   have he := inv_expire h
   unfold update
   simp only []
@@ -505,7 +511,7 @@ theorem recv_passive_origin {var : Variant} (hv : var.hbAny = false) {s : St} (v
       exact hq hp'
 
 
-theorem update_state_of_standalone {s : St} (h : s.state = .standalone) : (update s).state = .standalone := by
+theorem update_state_of_standalone {var : Variant} {s : St} (h : s.state = .standalone) : (update var s).state = .standalone := by
   unfold update
   have : (expire s).state = .standalone := by simp [expire, h]
   simp only [this]
@@ -513,13 +519,13 @@ theorem update_state_of_standalone {s : St} (h : s.state = .standalone) : (updat
   repeat' split
   all_goals simp_all [expire]
 
-theorem update_not_passive {s : St} (h : s.state ≠ .passive) : (update s).state ≠ .passive := by
+theorem update_not_passive {var : Variant} {s : St} (h : s.state ≠ .passive) : (update var s).state ≠ .passive := by
   unfold update
   have he : (expire s).state = s.state := by simp [expire]
   cases hs : s.state with
   | passive => exact absurd hs h
   | standalone =>
-    have := update_state_of_standalone hs
+    have := update_state_of_standalone (var := var) hs
     unfold update at this
     simp_all
   | idle => simp_all
@@ -529,9 +535,9 @@ theorem update_not_passive {s : St} (h : s.state ≠ .passive) : (update s).stat
     repeat' split
     all_goals simp_all [expire]
 
-theorem leader_lost_update {s : St} {t : Nat} (hp : s.state = .passive) (hl : s.last = some t)
+theorem leader_lost_update {var : Variant} {s : St} {t : Nat} (hp : s.state = .passive) (hl : s.last = some t)
     (hs : s.now - t ≥ timeClusterContinuity) :
-    (update s).state = .standalone ∧ shouldTransmit (update s) = true := by
+    (update var s).state = .standalone ∧ shouldTransmit (update var s) = true := by
   unfold update
   have he : (expire s).state = .passive := by simp [expire, hp]
   simp only [he]
@@ -549,8 +555,9 @@ theorem updLeaveNotify_fields (s : St) :
   repeat' split
   all_goals simp
 
-theorem update_passive_origin {s : St} (hp' : (update s).state = .passive) :
-    s.state = .passive ∧ (update s).leader = s.leader ∧ (update s).joined = s.joined ∧ (update s).last = s.last := by
+theorem update_passive_origin {var : Variant} {s : St} (hp' : (update var s).state = .passive) :
+    s.state = .passive ∧ (update var s).leader = s.leader ∧ (update var s).joined = s.joined ∧
+      (update var s).last = s.last := by
   by_cases hp : s.state = .passive
   · refine ⟨hp, ?_⟩
     unfold update at hp' ⊢
@@ -642,7 +649,7 @@ theorem step_passive_origin {var : Variant} (hv : var.hbAny = false) {s : St} (o
 
 /-! ### the clock only moves by `tick` -/
 
-theorem update_now (s : St) : (update s).now = s.now := by
+theorem update_now (var : Variant) (s : St) : (update var s).now = s.now := by
   unfold update updStandalone updLeader updPassive updLeaveNotify updJoin confirmJoinFailed clearLeave doLeave
   simp only []
   repeat' split
@@ -725,12 +732,12 @@ theorem run_now_mono (var : Variant) (ops : List Op) : ∀ s : St, s.now ≤ (ru
     simp only [run] at h2
     omega
 
-theorem update_keeps_notify {s : St} {t0 : Nat} (hs : s.state = .standalone) (hj : s.joinSub = .notify)
+theorem update_keeps_notify {var : Variant} {s : St} {t0 : Nat} (hs : s.state = .standalone) (hj : s.joinSub = .notify)
     (ht : s.joinStarted = some t0) (hlt : s.now - t0 < timeClusterJoinNotification) :
-    (update s).state = .standalone ∧ (update s).joinSub = .notify ∧ (update s).joinStarted = some t0 ∧
-    (update s).joinTarget = s.joinTarget := by
+    (update var s).state = .standalone ∧ (update var s).joinSub = .notify ∧ (update var s).joinStarted = some t0 ∧
+    (update var s).joinTarget = s.joinTarget := by
   have hn : ¬ s.now - t0 ≥ timeClusterJoinNotification := by omega
-  have e : update s = updLeaveNotify (expire s) := by
+  have e : update var s = updLeaveNotify (expire s) := by
     simp [update, expire, hs, updStandalone, updJoin, hj, ht, hn]
   rw [e]
   refine ⟨by rw [(updLeaveNotify_fields _).1]; simp [expire, hs], ?_⟩
@@ -754,7 +761,9 @@ theorem standaloneOp_join_none {var : Variant} {s : St} (h : s.joinSub ≠ .noti
   unfold standaloneOp
   split
   · contradiction
-  · split <;> rfl
+  · split
+    · rfl
+    · split <;> rfl
 
 theorem inv_step {var : Variant} {s : St} (h : Inv s) (op : Op) (hw : op.WF) : Inv (step var s op).1 := by
   cases op with
@@ -776,5 +785,492 @@ theorem inv_run {var : Variant} {s : St} (h : Inv s) (ops : List Op) (hw : ∀ o
   | cons op rest ih =>
     simp only [run, List.foldl_cons]
     exact ih (inv_step h op (hw op (by simp))) (fun o ho => hw o (by simp [ho]))
+
+/-! ### Round 3: silence of the joined cluster only; origin of the leader-lost timer over histories -/
+
+/-- the event is NOT a cluster VAM of cluster `c` sent by station `l` (everything else is allowed: cluster VAMs of
+other clusters, of cluster `c` from another station, individual VAMs of `l`, commands, updates, clock steps) -/
+def QuietFor (l c : Nat) : Op → Prop
+  | .recv v => ¬ (v.sender = l ∧ ∃ i, v.info = some i ∧ i.cid.getD 0 = c)
+  | _ => True
+
+theorem step_quiet_for {var : Variant} (hv : var.hbAny = false) {s : St} {op : Op} {l c : Nat} (hq : QuietFor l c op)
+    (hp' : (step var s op).1.state = .passive) (hl' : (step var s op).1.leader = some l)
+    (hj' : (step var s op).1.joined = some c) :
+    s.state = .passive ∧ s.leader = some l ∧ s.joined = some c ∧ (step var s op).1.last = s.last := by
+  rcases step_passive_origin hv op hp' with h | ⟨v, i, rfl, hi, hl, hj, _⟩
+  · exact ⟨h.1, h.2.1 ▸ hl', h.2.2.1 ▸ hj', h.2.2.2⟩
+  · exfalso
+    rw [hl'] at hl; rw [hj'] at hj
+    simp only [Option.some.injEq] at hl hj
+    exact hq ⟨hl.symm, i, hi, hj.symm⟩
+
+theorem run_quiet_for {var : Variant} (hv : var.hbAny = false) {l c : Nat} (ops : List Op) :
+    ∀ s : St, (∀ op ∈ ops, QuietFor l c op) → (run var s ops).state = .passive →
+      (run var s ops).leader = some l → (run var s ops).joined = some c →
+      s.state = .passive ∧ s.leader = some l ∧ s.joined = some c ∧ (run var s ops).last = s.last := by
+  induction ops with
+  | nil => intro s _ h hl hj; exact ⟨h, hl, hj, rfl⟩
+  | cons op rest ih =>
+    intro s hq hp' hl' hj'
+    simp only [run, List.foldl_cons] at hp' hl' hj' ⊢
+    obtain ⟨h1, h2, h3, h4⟩ := ih (step var s op).1 (fun o ho => hq o (by simp [ho])) hp' hl' hj'
+    obtain ⟨g1, g2, g3, g4⟩ := step_quiet_for hv (hq op (by simp)) h1 h2 h3
+    exact ⟨g1, g2, g3, by rw [← g4]; exact h4⟩
+
+/-- WHERE THE TIMER VALUE COMES FROM, over a whole history: if after `ops` the station is a passive member of cluster
+`c` led by `l` with leader-lost timer `t`, then either it was that already before `ops` (same timer), or `ops`
+contains a cluster VAM of `c` sent by `l`, received when the clock showed exactly `t`. -/
+theorem run_heard_origin {var : Variant} (hv : var.hbAny = false) (ops : List Op) :
+    ∀ (s : St) (l c t : Nat), (run var s ops).state = .passive → (run var s ops).leader = some l →
+      (run var s ops).joined = some c → (run var s ops).last = some t →
+      (s.state = .passive ∧ s.leader = some l ∧ s.joined = some c ∧ s.last = some t) ∨
+      ∃ pre v i post, ops = pre ++ .recv v :: post ∧ v.sender = l ∧ v.info = some i ∧ i.cid.getD 0 = c ∧
+        (run var s pre).now = t := by
+  induction ops with
+  | nil => intro s l c t h hl hj ht; exact Or.inl ⟨h, hl, hj, ht⟩
+  | cons op rest ih =>
+    intro s l c t hp' hl' hj' ht'
+    simp only [run, List.foldl_cons] at hp' hl' hj' ht'
+    rcases ih (step var s op).1 l c t hp' hl' hj' ht' with ⟨h1, h2, h3, h4⟩ | ⟨pre, v, i, post, he, g1, g2, g3, g4⟩
+    · rcases step_passive_origin hv op h1 with h | ⟨v, i, rfl, hi, hl, hj, hla⟩
+      · exact Or.inl ⟨h.1, h.2.1 ▸ h2, h.2.2.1 ▸ h3, h.2.2.2 ▸ h4⟩
+      · right
+        rw [h2] at hl; rw [h3] at hj; rw [h4] at hla
+        simp only [Option.some.injEq] at hl hj hla
+        refine ⟨[], v, i, rest, rfl, hl.symm, hi, hj.symm, ?_⟩
+        have := step_now var s (.recv v)
+        simp only [Nat.add_zero] at this
+        simp only [run, List.foldl_nil]
+        omega
+    · right
+      refine ⟨op :: pre, v, i, post, by rw [he]; rfl, g1, g2, g3, ?_⟩
+      simpa [run, List.foldl_cons] using g4
+
+/-! ### Round 3: notifications over histories -/
+
+theorem updJoin_keeps {var : Variant} {s : St} (hs : s.state = .standalone) :
+    (updJoin var s).state = .standalone ∧ (updJoin var s).leaveNotify = s.leaveNotify ∧
+    (updJoin var s).leaveStarted = s.leaveStarted ∧ (updJoin var s).leaveCid = s.leaveCid ∧
+    (updJoin var s).leaveReason = s.leaveReason ∧ (updJoin var s).now = s.now ∧ (updJoin var s).cluster = s.cluster := by
+  unfold updJoin confirmJoinFailed
+  repeat' split
+  all_goals simp_all
+
+theorem updLeaveNotify_running {s : St} {t1 : Nat} (hl : s.leaveNotify = true) (ht : s.leaveStarted = some t1)
+    (hn : ¬ s.now - t1 ≥ timeClusterLeaveNotification) : updLeaveNotify s = s := by
+  simp [updLeaveNotify, hl, ht, hn]
+
+/-- the state without its three tables -/
+def ctl (s : St) : St := { s with vrus := [], clusters := [], seen := [] }
+
+/-- a received VAM does not touch a station that is stand-alone and not waiting for admission, except for its tables -/
+theorem recv_standalone_keeps {var : Variant} {s : St} (v : Vam) (hs : s.state = .standalone) (hw : s.joinSub ≠ .waiting) :
+    ctl (recv var s v) = ctl s := by
+  have a0 : ctl (recvVrus s v) = ctl s := rfl
+  have s0 : (recvVrus s v).state = .standalone := hs
+  have w0 : (recvVrus s v).joinSub ≠ .waiting := hw
+  by_cases hab : recvAborted var v = true
+  · rw [recv_of_aborted hab]; exact a0
+  · rw [recv_of_not_aborted (by simpa using hab)]
+    generalize recvVrus s v = s0' at a0 s0 w0
+    have a1 : ctl (recvInfoOpt s0' v) = ctl s0' := by
+      unfold recvInfoOpt
+      split
+      · simp only [recvInfo, w0, false_and, and_false, if_false]
+        rfl
+      · rfl
+    have s1 : (recvInfoOpt s0' v).state = .standalone := by
+      have := congrArg St.state a1; simpa [ctl, s0] using this
+    generalize recvInfoOpt s0' v = s1' at a1 s1
+    have a2 : recvOpOpt var s1' v = s1' := by
+      unfold recvOpOpt
+      split
+      · unfold recvOp recvTrack recvBreakup
+        simp only [s1]
+        split <;> simp
+      · rfl
+    rw [a2]
+    have a3 : recvHb var s1' v = s1' := by
+      unfold recvHb isHeartbeat
+      simp [s1]
+    rw [a3, a1, a0]
+
+/-- a leave notification after membership is running since `t1` for cluster `cid` with reason `r` -/
+structure LeaveRunning (s : St) (t1 : Nat) (cid r : Option Nat) : Prop where
+  st : s.state = .standalone
+  ln : s.leaveNotify = true
+  ls : s.leaveStarted = some t1
+  lc : s.leaveCid = cid
+  lr : s.leaveReason = r
+  le : t1 ≤ s.now
+  nw : s.joinSub ≠ .waiting
+  bj : s.joinSub = .notify → ∃ b, s.joinStarted = some b ∧ t1 ≤ b
+
+theorem leaveRunning_of_inv {s : St} (h : Inv s) {t1 : Nat} (hs : s.state = .standalone) (hl : s.leaveNotify = true)
+    (ht : s.leaveStarted = some t1) : LeaveRunning s t1 s.leaveCid s.leaveReason := by
+  refine ⟨hs, hl, ht, rfl, rfl, h.leaveLeNow hl t1 ht, ?_, ?_⟩
+  · intro hw; have := h.waitingNoLeave hw; simp [hl] at this
+  · intro hj
+    have := h.joinTimer (Or.inl hj)
+    cases hjs : s.joinStarted with
+    | none => simp [hjs] at this
+    | some b => exact ⟨b, rfl, h.leaveBeforeJoin hj hl t1 b ht hjs⟩
+
+/-- every event except role-off keeps a running leave notification as long as its duration has not elapsed -/
+theorem leaveRunning_step {var : Variant} (hv : var.createDuringNotify = false) {s : St} {t1 : Nat} {cid r : Option Nat}
+    (h : LeaveRunning s t1 cid r) (op : Op) (hk : op ≠ .roleOff)
+    (hlt : (step var s op).1.now - t1 < timeClusterLeaveNotification) :
+    LeaveRunning (step var s op).1 t1 cid r := by
+  obtain ⟨hs, hl, ht, hc, hr, hle, hnw, hbj⟩ := h
+  have hlj := leave_le_join
+  cases op with
+  | roleOff => exact absurd rfl hk
+  | tick d => exact ⟨hs, hl, ht, hc, hr, by simp only [step]; omega, hnw, hbj⟩
+  | roleOn => simp only [step, roleOn, hs]; exact ⟨hs, hl, ht, hc, hr, hle, hnw, hbj⟩
+  | tryCreate x y rs =>
+    have : (tryCreate var s x y rs).1 = s := by simp [tryCreate, hs, hv, hl]
+    simp only [step, this]; exact ⟨hs, hl, ht, hc, hr, hle, hnw, hbj⟩
+  | initiateJoin c =>
+    simp only [step, initiateJoin]
+    split
+    · exact ⟨hs, hl, ht, hc, hr, hle, hnw, hbj⟩
+    split
+    · exact ⟨hs, hl, ht, hc, hr, hle, hnw, hbj⟩
+    · exact ⟨hs, hl, ht, hc, hr, hle, by simp, fun _ => ⟨s.now, rfl, hle⟩⟩
+  | cancelJoin =>
+    simp only [step, cancelJoin]
+    split
+    · exact ⟨hs, hl, ht, hc, hr, hle, by simp, by simp⟩
+    · exact ⟨hs, hl, ht, hc, hr, hle, hnw, hbj⟩
+  | confirmJoinFailed =>
+    simp only [step, confirmJoinFailed]
+    split
+    · rename_i hw; exact absurd hw hnw
+    · exact ⟨hs, hl, ht, hc, hr, hle, hnw, hbj⟩
+  | leave r' =>
+    simp only [step, leave, hs]
+    split
+    · rename_i hp; simp at hp
+    split
+    · simp only [cancelJoin]
+      split
+      · exact ⟨hs, hl, ht, hc, hr, hle, by simp, by simp⟩
+      · exact ⟨hs, hl, ht, hc, hr, hle, hnw, hbj⟩
+    · exact ⟨hs, hl, ht, hc, hr, hle, hnw, hbj⟩
+  | breakup r' =>
+    have : (breakup s r').1 = s := by simp [breakup, hs]
+    simp only [step, this]; exact ⟨hs, hl, ht, hc, hr, hle, hnw, hbj⟩
+  | recv v =>
+    have e := recv_standalone_keeps (var := var) v hs hnw
+    simp only [step]
+    have f := fun {α} (g : St → α) (hg : ∀ x, g (ctl x) = g x) => (hg _).symm.trans ((congrArg g e).trans (hg s))
+    refine ⟨(f St.state (fun _ => rfl)).trans hs, (f St.leaveNotify (fun _ => rfl)).trans hl,
+      (f St.leaveStarted (fun _ => rfl)).trans ht, (f St.leaveCid (fun _ => rfl)).trans hc,
+      (f St.leaveReason (fun _ => rfl)).trans hr, by rw [f St.now (fun _ => rfl)]; exact hle,
+      by rw [f St.joinSub (fun _ => rfl)]; exact hnw, ?_⟩
+    rw [f St.joinSub (fun _ => rfl), f St.joinStarted (fun _ => rfl)]; exact hbj
+  | update =>
+    have hnow : (update var s).now = s.now := update_now var s
+    simp only [step] at hlt ⊢
+    rw [hnow] at hlt
+    have hex : (expire s).state = .standalone := by simp [expire, hs]
+    obtain ⟨k1, k2, k3, k4, k5, k6, _⟩ := updJoin_keeps (var := var) hex
+    have hn : ¬ (updJoin var (expire s)).now - t1 ≥ timeClusterLeaveNotification := by
+      rw [k6]; simp only [expire]; omega
+    have e : update var s = updJoin var (expire s) := by
+      simp only [update, hex, updStandalone]
+      exact updLeaveNotify_running (by rw [k2]; simp [expire, hl]) (by rw [k3]; simp [expire, ht]) hn
+    rw [e]
+    refine ⟨k1, by rw [k2]; simp [expire, hl], by rw [k3]; simp [expire, ht], by rw [k4]; simp [expire, hc],
+      by rw [k5]; simp [expire, hr], by rw [k6]; simpa [expire] using hle, ?_, ?_⟩
+    · -- not waiting: a join announced after the leave cannot have finished its 3 s
+      intro hw
+      unfold updJoin at hw
+      split at hw
+      · rename_i hj
+        have hj : s.joinSub = .notify := by simpa [expire] using hj
+        obtain ⟨b, hb, hbl⟩ := hbj hj
+        have hb' : (expire s).joinStarted = some b := by simp [expire, hb]
+        simp only [hb'] at hw
+        split at hw
+        · rename_i hge; simp only [expire] at hge; omega
+        · simp [expire, hj] at hw
+      · rename_i hj; exact hnw (by simpa [expire] using hj)
+      · split at hw
+        · split at hw
+          · simp_all [expire]
+          · split at hw <;> simp_all [expire]
+        · simp_all [expire]
+      · split at hw
+        · split at hw
+          · simp_all [expire]
+          · split at hw <;> simp_all [expire]
+        · simp_all [expire]
+      · rename_i h1 h2 h3 h4; simp_all [expire]
+    · intro hj
+      unfold updJoin at hj ⊢
+      split at hj
+      · rename_i hj0
+        have hj0 : s.joinSub = .notify := by simpa [expire] using hj0
+        obtain ⟨b, hb, hbl⟩ := hbj hj0
+        have hb' : (expire s).joinStarted = some b := by simp [expire, hb]
+        simp only [hb'] at hj ⊢
+        have : ¬ (expire s).now - b ≥ timeClusterJoinNotification := by simp only [expire]; omega
+        simp only [this, if_false]
+        exact ⟨b, hb', hbl⟩
+      · split at hj
+        · split at hj <;> simp_all [expire]
+        · simp_all [expire]
+      · split at hj
+        · split at hj
+          · simp_all [expire]
+          · split at hj <;> simp_all [expire]
+        · simp_all [expire]
+      · split at hj
+        · split at hj
+          · simp_all [expire]
+          · split at hj <;> simp_all [expire]
+        · simp_all [expire]
+      · rename_i h1 h2 h3 h4; simp_all [expire]
+
+theorem leaveRunning_run {var : Variant} (hv : var.createDuringNotify = false) {t1 : Nat} {cid r : Option Nat}
+    (ops : List Op) : ∀ s : St, LeaveRunning s t1 cid r → (∀ op ∈ ops, op ≠ .roleOff) →
+      (run var s ops).now - t1 < timeClusterLeaveNotification → LeaveRunning (run var s ops) t1 cid r := by
+  induction ops with
+  | nil => intro s h _ _; exact h
+  | cons op rest ih =>
+    intro s h hk hlt
+    simp only [run, List.foldl_cons] at hlt ⊢
+    have hmono := run_now_mono var rest (step var s op).1
+    simp only [run] at hmono
+    exact ih _ (leaveRunning_step hv h op (hk op (by simp)) (by omega)) (fun o ho => hk o (by simp [ho])) hlt
+
+/-- the container of a station with a running leave notification (repaired code) -/
+theorem leaveRunning_container {var : Variant} (h1 : var.joinHidesLeave = false) (h2 : var.cancelHidesLeave = false)
+    {s : St} {t1 : Nat} {cid r : Option Nat} (h : LeaveRunning s t1 cid r) :
+    ∃ o, opContainer var s = some o ∧ o.leave = some (cid.getD 0, r.getD leaveNotProvided) := by
+  have hlo : leaveOut s = some (cid.getD 0, r.getD leaveNotProvided) := by simp [leaveOut, h.ln, h.lc, h.lr]
+  have hlv : (standaloneOp var s).leave = some (cid.getD 0, r.getD leaveNotProvided) := by
+    unfold standaloneOp
+    split
+    · simp [h1, hlo]
+    · simp [h2, h.ln, hlo]
+  exact ⟨_, by simp only [opContainer, h.st]; exact orNone_of_leave hlv, hlv⟩
+
+/-- the notice of a cancelled / failed join (sub-state `k`, target `tg`, reason `r`) is running since `t1` and no
+leave notification of an earlier membership occupies the `clusterLeaveInfo` -/
+structure JoinLeaveRunning (s : St) (t1 : Nat) (k : JoinSub) (tg r : Option Nat) : Prop where
+  st : s.state = .standalone
+  kk : k = .cancelled ∨ k = .failed
+  js : s.joinSub = k
+  jt : s.joinTarget = tg
+  jr : s.joinLeaveReason = r
+  jl : s.joinLeaveStarted = some t1
+  nl : s.leaveNotify = false
+
+theorem joinLeaveRunning_step {var : Variant} (hv : var.createDuringNotify = false) {s : St} {t1 : Nat} {k : JoinSub}
+    {tg r : Option Nat} (h : JoinLeaveRunning s t1 k tg r) (op : Op) (hk : op ≠ .roleOff)
+    (hlt : (step var s op).1.now - t1 < timeClusterLeaveNotification) :
+    JoinLeaveRunning (step var s op).1 t1 k tg r := by
+  obtain ⟨hs, hkk, hj, htg, hr, hl, hnl⟩ := h
+  have hnn : s.joinSub ≠ .none ∧ s.joinSub ≠ .notify ∧ s.joinSub ≠ .waiting := by
+    rcases hkk with rfl | rfl <;> simp [hj]
+  cases op with
+  | roleOff => exact absurd rfl hk
+  | tick d => exact ⟨hs, hkk, hj, htg, hr, hl, hnl⟩
+  | roleOn => simp only [step, roleOn, hs]; exact ⟨hs, hkk, hj, htg, hr, hl, hnl⟩
+  | tryCreate x y rs =>
+    have : (tryCreate var s x y rs).1 = s := by simp [tryCreate, hs, hv, hnn.1]
+    simp only [step, this]; exact ⟨hs, hkk, hj, htg, hr, hl, hnl⟩
+  | initiateJoin c =>
+    have : (initiateJoin s c).1 = s := by simp [initiateJoin, hs, hnn.1]
+    simp only [step, this]; exact ⟨hs, hkk, hj, htg, hr, hl, hnl⟩
+  | cancelJoin =>
+    have : cancelJoin s = s := by simp [cancelJoin, hnn.2.1, hnn.2.2]
+    simp only [step, this]; exact ⟨hs, hkk, hj, htg, hr, hl, hnl⟩
+  | confirmJoinFailed =>
+    have : confirmJoinFailed s = s := by simp [confirmJoinFailed, hnn.2.2]
+    simp only [step, this]; exact ⟨hs, hkk, hj, htg, hr, hl, hnl⟩
+  | leave r' =>
+    have : leave s r' = s := by simp [leave, hs, hnn.2.1]
+    simp only [step, this]; exact ⟨hs, hkk, hj, htg, hr, hl, hnl⟩
+  | breakup r' =>
+    have : (breakup s r').1 = s := by simp [breakup, hs]
+    simp only [step, this]; exact ⟨hs, hkk, hj, htg, hr, hl, hnl⟩
+  | recv v =>
+    have e := recv_standalone_keeps (var := var) v hs hnn.2.2
+    simp only [step]
+    have f := fun {α} (g : St → α) (hg : ∀ x, g (ctl x) = g x) => (hg _).symm.trans ((congrArg g e).trans (hg s))
+    exact ⟨(f St.state (fun _ => rfl)).trans hs, hkk, (f St.joinSub (fun _ => rfl)).trans hj,
+      (f St.joinTarget (fun _ => rfl)).trans htg, (f St.joinLeaveReason (fun _ => rfl)).trans hr,
+      (f St.joinLeaveStarted (fun _ => rfl)).trans hl, (f St.leaveNotify (fun _ => rfl)).trans hnl⟩
+  | update =>
+    have hnow : (update var s).now = s.now := update_now var s
+    simp only [step] at hlt ⊢
+    rw [hnow] at hlt
+    have hn : ¬ s.now - t1 ≥ timeClusterLeaveNotification := by omega
+    have e : update var s = expire s := by
+      rcases hkk with rfl | rfl <;>
+        simp [update, expire, hs, updStandalone, updJoin, hj, hl, hnl, hn, updLeaveNotify]
+    rw [e]
+    exact ⟨by simp [expire, hs], hkk, by simp [expire, hj], by simp [expire, htg], by simp [expire, hr],
+      by simp [expire, hl], by simp [expire, hnl]⟩
+
+theorem joinLeaveRunning_run {var : Variant} (hv : var.createDuringNotify = false) {t1 : Nat} {k : JoinSub}
+    {tg r : Option Nat} (ops : List Op) : ∀ s : St, JoinLeaveRunning s t1 k tg r → (∀ op ∈ ops, op ≠ .roleOff) →
+      (run var s ops).now - t1 < timeClusterLeaveNotification → JoinLeaveRunning (run var s ops) t1 k tg r := by
+  induction ops with
+  | nil => intro s h _ _; exact h
+  | cons op rest ih =>
+    intro s h hk hlt
+    simp only [run, List.foldl_cons] at hlt ⊢
+    have hmono := run_now_mono var rest (step var s op).1
+    simp only [run] at hmono
+    exact ih _ (joinLeaveRunning_step hv h op (hk op (by simp)) (by omega)) (fun o ho => hk o (by simp [ho])) hlt
+
+theorem joinLeaveRunning_container {var : Variant} {s : St} {t1 : Nat} {k : JoinSub} {tg r : Option Nat}
+    (h : JoinLeaveRunning s t1 k tg r) :
+    ∃ o, opContainer var s = some o ∧ o.leave = some (tg.getD 0, r.getD leaveNotProvided) ∧ o.join = none := by
+  have hk : s.joinSub = .cancelled ∨ s.joinSub = .failed := by rw [h.js]; exact h.kk
+  have hne : s.joinSub ≠ .notify := by rcases hk with e | e <;> simp [e]
+  have hlv : (standaloneOp var s).leave = some (tg.getD 0, r.getD leaveNotProvided) := by
+    unfold standaloneOp
+    simp [hne, h.nl, hk, h.jt, h.jr]
+  exact ⟨_, by simp only [opContainer, h.st]; exact orNone_of_leave hlv, hlv, standaloneOp_join_none hne⟩
+
+/-- a break-up warning of the own cluster `cid` (reason `r`) is running since `t0` -/
+structure BreakupRunning (s : St) (t0 cid r : Nat) : Prop where
+  st : s.state = .leader
+  cl : ∃ c, s.cluster = some c ∧ c.cid = cid ∧ c.breakupStarted = some t0 ∧ c.breakupReason = some r
+
+theorem leaderTrack_keeps (c : OwnCluster) (sender : Nat) (o : OpC) :
+    (leaderTrack c sender o).cid = c.cid ∧ (leaderTrack c sender o).breakupStarted = c.breakupStarted ∧
+    (leaderTrack c sender o).breakupReason = c.breakupReason := by
+  unfold leaderTrack trackLeave trackJoin setCard
+  repeat' split
+  all_goals simp
+
+theorem breakupRunning_step {var : Variant} {s : St} {t0 cid r : Nat} (h : BreakupRunning s t0 cid r) (op : Op)
+    (hk : op ≠ .roleOff) (hlt : (step var s op).1.now - t0 < timeClusterBreakupWarning) :
+    BreakupRunning (step var s op).1 t0 cid r := by
+  obtain ⟨hs, c, hc, hcid, hb, hr⟩ := h
+  cases op with
+  | roleOff => exact absurd rfl hk
+  | tick d => exact ⟨hs, c, hc, hcid, hb, hr⟩
+  | roleOn => simp only [step, roleOn, hs]; exact ⟨hs, c, hc, hcid, hb, hr⟩
+  | tryCreate x y rs =>
+    have : (tryCreate var s x y rs).1 = s := by simp [tryCreate, hs]
+    simp only [step, this]; exact ⟨hs, c, hc, hcid, hb, hr⟩
+  | initiateJoin c' =>
+    have : (initiateJoin s c').1 = s := by simp [initiateJoin, hs]
+    simp only [step, this]; exact ⟨hs, c, hc, hcid, hb, hr⟩
+  | cancelJoin =>
+    simp only [step, cancelJoin]
+    split
+    · exact ⟨hs, c, hc, hcid, hb, hr⟩
+    · exact ⟨hs, c, hc, hcid, hb, hr⟩
+  | confirmJoinFailed =>
+    simp only [step, confirmJoinFailed]
+    split
+    · exact ⟨hs, c, hc, hcid, hb, hr⟩
+    · exact ⟨hs, c, hc, hcid, hb, hr⟩
+  | leave r' =>
+    have : leave s r' = s := by simp [leave, hs]
+    simp only [step, this]; exact ⟨hs, c, hc, hcid, hb, hr⟩
+  | breakup r' =>
+    have : (breakup s r').1 = s := by simp [breakup, hs, hc, hb]
+    simp only [step, this]; exact ⟨hs, c, hc, hcid, hb, hr⟩
+  | update =>
+    have hnow : (update var s).now = s.now := update_now var s
+    simp only [step] at hlt ⊢
+    rw [hnow] at hlt
+    have hn : ¬ s.now - t0 ≥ timeClusterBreakupWarning := by omega
+    have e : update var s = expire s := by simp [update, expire, hs, updLeader, hc, hb, hn]
+    rw [e]
+    exact ⟨by simp [expire, hs], c, by simp [expire, hc], hcid, hb, hr⟩
+  | recv v =>
+    simp only [step]
+    have b0 : BreakupRunning (recvVrus s v) t0 cid r := ⟨hs, c, hc, hcid, hb, hr⟩
+    by_cases hab : recvAborted var v = true
+    · rw [recv_of_aborted hab]; exact b0
+    · rw [recv_of_not_aborted (by simpa using hab)]
+      generalize recvVrus s v = s0 at b0
+      have b1 : BreakupRunning (recvInfoOpt s0 v) t0 cid r := by
+        obtain ⟨hs0, c0, hc0, h1, h2, h3⟩ := b0
+        unfold recvInfoOpt
+        split
+        · have hne : ¬ (s0.state = .standalone) := by rw [hs0]; decide
+          simp only [recvInfo, hne, false_and, if_false]
+          exact ⟨hs0, c0, hc0, h1, h2, h3⟩
+        · exact ⟨hs0, c0, hc0, h1, h2, h3⟩
+      generalize recvInfoOpt s0 v = s1 at b1
+      have b2 : BreakupRunning (recvOpOpt var s1 v) t0 cid r := by
+        obtain ⟨hs1, c1, hc1, h1, h2, h3⟩ := b1
+        unfold recvOpOpt
+        split
+        · rename_i o _
+          obtain ⟨k1, k2, k3⟩ := leaderTrack_keeps c1 v.sender o
+          have ht : BreakupRunning (recvTrack s1 v.sender o) t0 cid r := by
+            have e : recvTrack s1 v.sender o = { s1 with cluster := some (leaderTrack c1 v.sender o) } := by
+              simp only [recvTrack, hs1, hc1]
+            rw [e]
+            exact ⟨hs1, _, rfl, k1.trans h1, k2.trans h2, k3.trans h3⟩
+          unfold recvOp
+          simp only []
+          split
+          · unfold recvBreakup
+            rw [if_neg (by rw [ht.st]; simp)]
+            exact ht
+          · exact ht
+        · exact ⟨hs1, c1, hc1, h1, h2, h3⟩
+      generalize recvOpOpt var s1 v = s2 at b2
+      obtain ⟨hs2, c2, hc2, h1, h2, h3⟩ := b2
+      unfold recvHb isHeartbeat
+      simp only [hs2]
+      exact ⟨hs2, c2, hc2, h1, h2, h3⟩
+
+theorem breakupRunning_run {var : Variant} {t0 cid r : Nat} (ops : List Op) :
+    ∀ s : St, BreakupRunning s t0 cid r → (∀ op ∈ ops, op ≠ .roleOff) →
+      (run var s ops).now - t0 < timeClusterBreakupWarning → BreakupRunning (run var s ops) t0 cid r := by
+  induction ops with
+  | nil => intro s h _ _; exact h
+  | cons op rest ih =>
+    intro s h hk hlt
+    simp only [run, List.foldl_cons] at hlt ⊢
+    have hmono := run_now_mono var rest (step var s op).1
+    simp only [run] at hmono
+    exact ih _ (breakupRunning_step h op (hk op (by simp)) (by omega)) (fun o ho => hk o (by simp [ho])) hlt
+
+theorem breakupRunning_container {var : Variant} {s : St} {t0 cid r : Nat} (h : BreakupRunning s t0 cid r) :
+    opContainer var s = some { breakup := some (r, quarters (timeClusterBreakupWarning - (s.now - t0))) } ∧
+    ∃ k p, infoContainer s = some (cid, k, p) := by
+  obtain ⟨hs, c, hc, hcid, hb, hr⟩ := h
+  exact ⟨by simp [opContainer, hs, hc, hb, hr], by simp [infoContainer, hs, hc, hcid]⟩
+
+/-- the time fields of every operation container are encodable as DeltaTimeQuarterSecond -/
+theorem quarters_range (left : Nat) : 1 ≤ quarters left ∧ quarters left ≤ 127 := by
+  unfold quarters; omega
+
+theorem opContainer_times {var : Variant} {s : St} {o : OpOut} (h : opContainer var s = some o) :
+    (∀ j, o.join = some j → 1 ≤ j.2 ∧ j.2 ≤ 127) ∧ (∀ b, o.breakup = some b → 1 ≤ b.2 ∧ b.2 ≤ 127) := by
+  unfold opContainer at h
+  split at h
+  · have := orNone_some h
+    subst this
+    unfold standaloneOp
+    repeat' split
+    all_goals simp [quarterLeft, quarters_range]
+  · have := orNone_some h
+    subst this
+    simp
+  · split at h
+    · simp at h
+    · split at h
+      · simp only [Option.some.injEq] at h
+        subst h
+        simp [quarters_range]
+      · simp at h
+  · simp at h
 
 end FlexModel.Vru
